@@ -73,11 +73,11 @@ def framed(s, tag="", **rk):
     return Case(prog, lines, focus=2, tag=tag)
 
 
-def run_suite(ctx, name, cases, report_all_classes=True, owned_only=True):
+def run_suite(ctx, name, cases, report_all_classes=True, owned_only=True, hooks=False):
     """Assemble every case, judge with Tr_Asm, report items owned by ctx.prop.  Returns verdicts (by id)."""
     t0 = time.time()
     triples = [(k, c.prog, c.lines) for k, c in enumerate(cases)]
-    traces, extras = asmrun.run(triples)
+    traces, extras = asmrun.run(triples, hooks=hooks)
     for t, c in zip(traces, cases):
         t["focus"] = c.focus
     adapter = [extras[t["id"]]["adapter"] for t in traces if extras[t["id"]]["adapter"]]
@@ -103,7 +103,7 @@ def run_suite(ctx, name, cases, report_all_classes=True, owned_only=True):
                 continue
             x = extras[t["id"]]
             item = {"clause": it["clause"], "class": it["class"], "symptom": dict(it["symptom"], site=x["site"], exc=x["exc"])}
-            replay = {"kind": "asm", "lines": c.lines, "stmt_index": it["k"], "outcome": t["outcome"], "msg": x["msg"],
+            replay = {"kind": "asm", "lines": c.lines, "prog": c.prog, "focus": c.focus, "stmt_index": it["k"], "outcome": t["outcome"], "msg": x["msg"],
                       "obs": t["obs"][it["k"] - 1] if t["obs"] and 0 < it["k"] <= len(t["obs"]) else None, "suite": name, "tag": c.tag}
             if ctx.report(item, replay) == "violation":
                 nviol += 1
